@@ -199,7 +199,8 @@ def gen_item(rng, names=None, want_enum=None, allow_attrs=True, plain=False, abs
             c += [U, f'({T}, {U})']
         if gkind == 'Tsrc':
             # shorthand and fully qualified projections: the field type mentions the parameter only through a path
-            c += [f'{T}::Item', f'{T}::Item', f'{OPT}<{T}::Item>', f'<{T} as helpers::Src>::Item', f'({T}::Item, i8)']
+            c += [f'{T}::Item', f'{T}::Item', f'{OPT}<{T}::Item>', f'<{T} as helpers::Src>::Item', f'({T}::Item, i8)',
+                  f'<{T}>::Item', f'<{T}>::Item']   # a qualified path without a trait (F21)
         if has_N and not dflt:
             c += [f'[{T}; {N}]', f'[i8; {N}]']
         if has_N:
